@@ -33,16 +33,23 @@ pub enum Mode {
     ClearBefore,
     ClearAfter,
     ClearAlt,
+    /// clear_instr_at(loc, SemanticAfter / BlockEntry / BlockExit): the special probes of that mode at the site are withdrawn
+    ClearSemAfter,
+    ClearBlockEntry,
+    ClearBlockExit,
 }
 impl Mode {
     pub fn special(self) -> bool {
-        !matches!(self, Mode::Before | Mode::After | Mode::Alt | Mode::EmptyAlt | Mode::ClearBefore | Mode::ClearAfter | Mode::ClearAlt)
+        !matches!(self, Mode::Before | Mode::After | Mode::Alt | Mode::EmptyAlt) && self.clears().is_none()
     }
     pub fn clears(self) -> Option<IM> {
         match self {
             Mode::ClearBefore => Some(IM::Before),
             Mode::ClearAfter => Some(IM::After),
             Mode::ClearAlt => Some(IM::Alternate),
+            Mode::ClearSemAfter => Some(IM::SemanticAfter),
+            Mode::ClearBlockEntry => Some(IM::BlockEntry),
+            Mode::ClearBlockExit => Some(IM::BlockExit),
             _ => None,
         }
     }
@@ -306,7 +313,9 @@ fn set_mode_iter<'a, T: IteratingInstrumenter<'a>>(it: &mut T, mode: Mode) {
         Mode::FuncExit => {
             it.func_exit();
         }
-        Mode::ClearBefore | Mode::ClearAfter | Mode::ClearAlt => unreachable!("clears are applied in apply_one_module"),
+        Mode::ClearBefore | Mode::ClearAfter | Mode::ClearAlt | Mode::ClearSemAfter | Mode::ClearBlockEntry | Mode::ClearBlockExit => {
+            unreachable!("clears are applied in apply_one_module")
+        }
     }
 }
 pub fn set_mode_at<'a, T: Instrumenter<'a>>(fm: &mut T, mode: Mode, loc: Location) {
@@ -344,7 +353,9 @@ pub fn set_mode_at<'a, T: Instrumenter<'a>>(fm: &mut T, mode: Mode, loc: Locatio
         Mode::FuncExit => {
             fm.func_exit();
         }
-        Mode::ClearBefore | Mode::ClearAfter | Mode::ClearAlt => unreachable!("clears are applied in apply_one_module"),
+        Mode::ClearBefore | Mode::ClearAfter | Mode::ClearAlt | Mode::ClearSemAfter | Mode::ClearBlockEntry | Mode::ClearBlockExit => {
+            unreachable!("clears are applied in apply_one_module")
+        }
     }
 }
 
@@ -1162,6 +1173,9 @@ fn mode_of(s: &str) -> Option<Mode> {
         "ClearBefore" => Mode::ClearBefore,
         "ClearAfter" => Mode::ClearAfter,
         "ClearAlt" => Mode::ClearAlt,
+        "ClearSemAfter" => Mode::ClearSemAfter,
+        "ClearBlockEntry" => Mode::ClearBlockEntry,
+        "ClearBlockExit" => Mode::ClearBlockExit,
         _ => return None,
     })
 }
